@@ -27,7 +27,7 @@ def make_cases(tier, profile):
     for l in ['KILL bob :go away', 'KILL dave :x', 'KILL alice :self', 'DIE', 'DIE :bye all', 'SQUIT irc.irc :stop', 'SQUIT other.srv :stop', 'WALLOPS :attention', 'WALLOPS hello', 'STATS u', 'STATS m']:
         cases.append(dict(name=l, line=l, judges=['no_panic', 'inv', 'opcmd'], spec=ospec))
     lspec = dict(base, sym_users=True, default_user_modes={'local_oper': True})
-    for l in ['KILL bob :go away', 'DIE', 'WALLOPS :attention', 'STATS u', 'MODE alice -O', 'MODE alice -o', 'MODE alice +o']:
+    for l in ['KILL bob :go away', 'DIE', 'SQUIT irc.irc :x', 'WALLOPS :attention', 'STATS u', 'MODE alice -O', 'MODE alice -o', 'MODE alice +o']:
         cases.append(dict(name=l + ' [every user is a local operator by default_user_modes]', line=l, judges=['no_panic', 'inv', 'opcmd', 'umode'], spec=lspec))
     # a nick change to a configured operator name confers nothing
     cases.append(dict(name='NICK opname [operators: opname]', line='NICK opname', judges=['no_panic', 'inv', 'nick'], spec=dict(base, operators=[('opname', 'goodpw', None)])))
@@ -42,5 +42,5 @@ BOUNDS = dict(universe='3 users with all five user modes symbolic (so every priv
 
 if __name__ == '__main__':
     run_property(PROP, sys.argv[1], int(sys.argv[2]), make_cases, BOUNDS,
-                 ['KILL/DIE/SQUIT issued by a local-only operator (+O without +o) may act or be refused (the statement leaves it open)',
+                 ['KILL, DIE and SQUIT require the (full) operator flag; WALLOPS and STATS accept local operators as well (as the statement words it)',
                   'verify(pw, hash) holds exactly when the configured hash was generated from pw'])
